@@ -332,8 +332,12 @@ Section Pipeline.
   Variable t0 : tset.                                     (* template.New("gotpl") + options + funcs *)
   Variable tsrc : Type.                                   (* renderable: source, scoped values, base path *)
   Variable parse : tset -> string -> tsrc -> option tset. (* t.New(name).Parse(src); None = error *)
-  Variable exec : tset -> string -> tsrc -> option string.
-      (* ExecuteTemplate with vals["Template"] set, then the "<no value>" replacement; None = error *)
+  Variable vstate : Type.                                 (* the values every template of the render shares: templates *)
+  Variable v0 : vstate.                                   (* can WRITE to them (sprig set/unset/merge on .Values) *)
+  Variable exec : tset -> vstate -> string -> tsrc -> option (string * vstate).
+      (* ExecuteTemplate with vals["Template"] set, then the "<no value>" replacement, and the shared
+         values as the execution leaves them; None = error.  Because of the shared values the
+         ORDER in which the files are executed is observable. *)
   (* document level *)
   Variable split : string -> list string.                 (* SplitManifests in BySplitManifestsOrder *)
   Variable head_of : string -> option head.               (* yaml.Unmarshal into SimpleHead; None = error *)
@@ -355,19 +359,19 @@ Section Pipeline.
         end
     end.
 
-  Fixpoint exec_all (t : tset) (keys : list string) (tpls : list (string * tsrc)) : fmap + string :=
+  Fixpoint exec_all (t : tset) (st : vstate) (keys : list string) (tpls : list (string * tsrc)) : fmap + string :=
     match keys with
     | [] => inl []
     | k :: rest =>
-        if is_partial k then exec_all t rest tpls
+        if is_partial k then exec_all t st rest tpls
         else match aget k tpls with
              | None => inr k
-             | Some r => match exec t k r with
+             | Some r => match exec t st k r with
                          | None => inr k
-                         | Some s => match exec_all t rest tpls with
-                                     | inl m => inl ((k, s) :: m)
-                                     | inr e => inr e
-                                     end
+                         | Some (s, st') => match exec_all t st' rest tpls with
+                                            | inl m => inl ((k, s) :: m)
+                                            | inr e => inr e
+                                            end
                          end
              end
     end.
@@ -376,7 +380,18 @@ Section Pipeline.
     let keys := sort_templates (map fst tpls) in
     match parse_all t0 keys tpls with
     | inr f => inr (SParse, f)
-    | inl t => match exec_all t keys tpls with
+    | inl t => match exec_all t v0 keys tpls with
+               | inr f => inr (SExec, f)
+               | inl m => inl m
+               end
+    end.
+
+  (* a variant that is NOT the code: files parsed in sorted order but executed while ranging over
+     the template map (kept for the refutation lemma [exec_map_order_refuted]) *)
+  Definition engine_render_exec_in_map_order (tpls : list (string * tsrc)) : fmap + (stage * string) :=
+    match parse_all t0 (sort_templates (map fst tpls)) tpls with
+    | inr f => inr (SParse, f)
+    | inl t => match exec_all t v0 (map fst tpls) tpls with
                | inr f => inr (SExec, f)
                | inl m => inl m
                end
